@@ -293,10 +293,76 @@ impl Report {
         self.start.elapsed().as_secs_f64()
     }
 
+    /// Like `par_for`, with a watchdog: if one chunk of jobs does not finish within the limit (a hang in the code
+    /// under test), the run reports a VIOLATION naming that chunk, writes its evidence and exits 1 – a check must
+    /// never sit silently on an infinite loop.
+    pub fn par_for<F: Fn(usize) + Sync>(&self, n: usize, chunk: usize, what: &str, f: F) {
+        let limit = std::time::Duration::from_secs(std::env::var("JBV_HANG_LIMIT_S").ok().and_then(|v| v.parse().ok()).unwrap_or(match self.tier {
+            Tier::Quick => 120,
+            Tier::Thorough => 600,
+        }));
+        let next = AtomicUsize::new(0);
+        let chunk = chunk.max(1);
+        let workers = nthreads().min(n.div_ceil(chunk)).max(1);
+        let slots: Vec<Mutex<Option<(Instant, usize)>>> = (0..workers).map(|_| Mutex::new(None)).collect();
+        let done = std::sync::atomic::AtomicBool::new(false);
+        std::thread::scope(|s| {
+            s.spawn(|| {
+                while !done.load(Ordering::Relaxed) {
+                    std::thread::sleep(std::time::Duration::from_millis(200));
+                    for slot in &slots {
+                        let cur = *slot.lock().unwrap();
+                        if let Some((t0, a)) = cur {
+                            if t0.elapsed() > limit {
+                                self.violation(
+                                    "hang",
+                                    format!("{}: a case among jobs {}..{} did not finish within {} s (infinite loop or runaway computation in the code under test)", what, a, (a + chunk).min(n), limit.as_secs()),
+                                    json!({"check_part": what, "job_range": [a, (a + chunk).min(n)], "jobs_total": n, "limit_s": limit.as_secs()}),
+                                );
+                                self.not_exhaustive("stopped by the hang watchdog");
+                                let code = self.finish_ref();
+                                std::process::exit(if code == 0 { 1 } else { code });
+                            }
+                        }
+                    }
+                }
+            });
+            let handles: Vec<_> = (0..workers)
+                .map(|w| {
+                    let slots = &slots;
+                    let next = &next;
+                    let f = &f;
+                    s.spawn(move || loop {
+                        let a = next.fetch_add(chunk, Ordering::Relaxed);
+                        if a >= n {
+                            *slots[w].lock().unwrap() = None;
+                            break;
+                        }
+                        *slots[w].lock().unwrap() = Some((Instant::now(), a));
+                        for i in a..(a + chunk).min(n) {
+                            f(i);
+                        }
+                    })
+                })
+                .collect();
+            let mut worker_panicked = false;
+            for h in handles {
+                worker_panicked |= h.join().is_err();
+            }
+            done.store(true, Ordering::Relaxed);
+            if worker_panicked {
+                panic!("a worker of {} panicked outside a monitored case (harness error)", what);
+            }
+        });
+    }
+
     /// Write evidence, print verdict lines, return the process exit code.
     pub fn finish(self) -> i32 {
+        self.finish_ref()
+    }
+    pub fn finish_ref(&self) -> i32 {
         let findings = Findings::load();
-        let inner = self.inner.into_inner().unwrap();
+        let inner = std::mem::take(&mut *self.inner.lock().unwrap());
         let mut known_seen: BTreeMap<String, (String, u64)> = BTreeMap::new();
         let mut new_vios: Vec<&Violation> = Vec::new();
         let mut seen_new_keys: BTreeMap<String, usize> = BTreeMap::new();
@@ -409,6 +475,53 @@ impl Report {
             return 2;
         }
         0
+    }
+}
+
+/// Watches individually entered operations (used inside stateright models, whose worker threads the harness does
+/// not own): if one stays entered longer than the limit, a `hang` violation naming it is reported and the
+/// process exits with the check's verdict.
+pub struct HangMonitor {
+    slots: std::sync::Arc<Mutex<std::collections::HashMap<std::thread::ThreadId, (Instant, String)>>>,
+    stop: std::sync::Arc<std::sync::atomic::AtomicBool>,
+}
+pub struct HangGuard<'a>(&'a HangMonitor);
+impl HangMonitor {
+    pub fn start(rep: &'static Report, what: &'static str) -> Self {
+        let limit = std::time::Duration::from_secs(std::env::var("JBV_HANG_LIMIT_S").ok().and_then(|v| v.parse().ok()).unwrap_or(match rep.tier {
+            Tier::Quick => 120,
+            Tier::Thorough => 600,
+        }));
+        let slots: std::sync::Arc<Mutex<std::collections::HashMap<std::thread::ThreadId, (Instant, String)>>> = Default::default();
+        let stop = std::sync::Arc::new(std::sync::atomic::AtomicBool::new(false));
+        let (s2, st2) = (slots.clone(), stop.clone());
+        std::thread::spawn(move || {
+            while !st2.load(Ordering::Relaxed) {
+                std::thread::sleep(std::time::Duration::from_millis(250));
+                let hung = s2.lock().unwrap().values().find(|(t0, _)| t0.elapsed() > limit).map(|x| x.1.clone());
+                if let Some(desc) = hung {
+                    rep.violation("hang", format!("{}: operation did not finish within {} s: {}", what, limit.as_secs(), desc), json!({"check_part": what, "operation": desc, "limit_s": limit.as_secs()}));
+                    rep.not_exhaustive("stopped by the hang watchdog");
+                    let code = rep.finish_ref();
+                    std::process::exit(if code == 0 { 1 } else { code });
+                }
+            }
+        });
+        HangMonitor { slots, stop }
+    }
+    pub fn enter(&self, desc: impl FnOnce() -> String) -> HangGuard<'_> {
+        self.slots.lock().unwrap().insert(std::thread::current().id(), (Instant::now(), desc()));
+        HangGuard(self)
+    }
+}
+impl Drop for HangGuard<'_> {
+    fn drop(&mut self) {
+        self.0.slots.lock().unwrap().remove(&std::thread::current().id());
+    }
+}
+impl Drop for HangMonitor {
+    fn drop(&mut self) {
+        self.stop.store(true, Ordering::Relaxed);
     }
 }
 
